@@ -13,7 +13,8 @@ EXPLANATION = (
     "when it is empty and appends otherwise, on every accepting path; send_poll_ready skips flushing only below the backpressure boundary; (R4) the message "
     "buffer in front of a transport is FIFO (push_back / pop_front), hands a message on only after the inner transport reported ready, flushes the inner "
     "transport only once the buffer is empty and never reports Ready(Ok) otherwise, and send_start enqueues on every path; (R5) next_message returns a frame only "
-    "on the true edge of `len <= buffered bytes`, resets the cached length on that edge and caches it when first read. These are the clauses 'reports "
+    "on the true edge of `len <= buffered bytes`, resets the cached length on that edge and caches it when first read; (R6) spare_capacity_mut hands out its slice without reserving only after a test that involves the buffer's capacity, and "
+    "reserves at least a constant minimum. These are the clauses 'reports "
     "end-of-stream and zero-length writes as errors', 'a flush returns only after all earlier messages were written', 'each frame only once it is complete' and "
     "the order part of 'once and in order'. NOT decided (the larger part): independence of the result from the fragmentation (arithmetic over runtime lengths "
     "and sequences of I/O results), the unsafe length bookkeeping of the packetizer, third-party I/O types."
@@ -164,3 +165,23 @@ def run(rep):
     tr = [c for c in nm.calls if c.name == "truncate"]
     ok = len(sp) == 1 and len(tr) == 1 and all(re.match(r"^Ord::max\(.*, const:4_usize\)$", d) for d in nm.describe(sp[0].args[1])) and all(re.match("^" + LEN + "$", d) for d in nm.describe(tr[0].args[1]))
     rep.check(ok, "C14-R5", nm.def_, "split-exact", "the frame must be split off with max(len, 4) bytes and truncated to len (no byte lost or duplicated between frames)", detail={})
+
+    # ---- R6 the zero-copy input interface hands out room ---------------------------------------------------
+    # spare_capacity_mut documents "guaranteed to be non-empty" (receive_poll would read 0 bytes into an empty slice and
+    # report a spurious end of stream). Whether room is left is a relation between capacity and length; decided here is the
+    # necessary shape: every path that hands out the slice without reserving has crossed a test that involves the buffer's
+    # capacity, and every reservation asks for a constant positive minimum or a clamped amount.
+    sc = prog.one(r"^aldrin_core::message::packetizer::Packetizer::spare_capacity_mut$")
+    out = [c for c in sc.calls if c.name == "spare_capacity_mut" and "BytesMut" in (c.callee or c.full or "")]
+    res = [c for c in sc.calls if c.name == "reserve"]
+    ok = len(out) == 1 and bool(res)
+    if ok:
+        capedges = sc.edges_matching([r"BytesMut::capacity\(self\.buf\)"])
+        reach = sc.reachable(0, without_nodes=set(c.bb for c in res), without_edges=capedges)
+        ok = out[0].bb not in reach
+    rep.check(ok, "C14-R6", sc.def_, "room-decided-by-capacity", "every path that hands out the spare slice without reserving must have tested the buffer's capacity (a decision that ignores the capacity cannot guarantee a non-empty slice; an empty one is read as end of stream)",
+              line=sc.span, detail={"reserve_sites": len(res)})
+    for c in res:
+        ds = sc.describe(c.args[1])
+        ok = all(re.search(r"MIN_RESERVE_CAPACITY|Ord::clamp\(", d) for d in ds)
+        rep.check(ok, "C14-R6", sc.def_, "reserve-positive", "a reservation must ask for at least the constant minimum (or a clamped amount); asks for %s" % sorted(ds), detail={})
